@@ -187,3 +187,108 @@ def py_normalise(s):
 def drive(lines):
     """One native driver process per batch (start-up is a few ms)."""
     return lean_bridge.drive(lines)
+
+
+# ---- token lists for scan_render (Proofs/Lemmas/Tokens.lean) ------------------------------------------------------
+# An independent, deliberately simple tokeniser of a script statement into the token grammar of the Lean proof
+# (it does not use fsic's regexes).  The driver checks the result: well-formed, renders back to the text, scans to
+# the expected matches.
+
+import keyword as _kw
+
+_ID0 = 'ABCDEFGHIJKLMNOPQRSTUVWXYZabcdefghijklmnopqrstuvwxyz_'
+_IDC = _ID0 + '0123456789'
+
+
+def _cp(s):
+    return [ord(c) for c in s]
+
+
+def _index_at(s, i):
+    """'[' w1 text w2 ']' starting at s[i] -> (json, next position) or (None, i)"""
+    if i >= len(s) or s[i] != '[':
+        return None, i
+    j = s.find(']', i)
+    if j < 0:
+        return None, i
+    inner = s[i + 1:j]
+    text = inner.strip()
+    lead = inner[:len(inner) - len(inner.lstrip())]
+    trail = inner[len(inner.rstrip()):] if text else ''
+    return {'w1': _cp(lead), 't': _cp(text), 'w2': _cp(trail)}, j + 1
+
+
+def tokenise(s):
+    toks, chunk, i, n = [], [], 0, len(s)
+
+    def flush():
+        if chunk:
+            toks.append({'k': 'chunk', 'cs': _cp(''.join(chunk))})
+            chunk.clear()
+
+    while i < n:
+        c = s[i]
+        if c == '`':
+            j = s.find('`', i + 2)
+            if j > 0 and '\n' not in s[i + 1:j] and i + 1 < n:
+                flush()
+                toks.append({'k': 'verb', 'cs': _cp(s[i + 1:j])})
+                i = j + 1
+                continue
+        if c in _ID0:
+            j = i
+            while j < n and s[j] in _IDC:
+                j += 1
+            ident = s[i:j]
+            if _kw.iskeyword(ident) and not (j < n and (s[j].isalnum() or s[j] == '_')):
+                flush()
+                toks.append({'k': 'kw', 'n': _cp(ident)})
+                i = j
+                continue
+            k = j
+            while k < n and (s[k] in _IDC or s[k] == '.'):
+                k += 1
+            m = k
+            while m < n and s[m].isspace():
+                m += 1
+            if m < n and s[m] == '(':
+                flush()
+                toks.append({'k': 'func', 'n': _cp(s[i:k]), 'w': _cp(s[k:m])})
+                i = m
+                continue
+            ix, nxt = _index_at(s, j)
+            flush()
+            toks.append({'k': 'var', 'n': _cp(ident), 'ix': ix})
+            i = nxt
+            continue
+        if c in '{<':
+            close = '}' if c == '{' else '>'
+            j = i + 1
+            while j < n and s[j].isspace():
+                j += 1
+            k = j
+            while k < n and s[k] in (_IDC if k > j else _ID0):
+                k += 1
+            m = k
+            while m < n and s[m].isspace():
+                m += 1
+            if k > j and m < n and s[m] == close:
+                ix, nxt = _index_at(s, m + 1)
+                flush()
+                toks.append({'k': 'param' if c == '{' else 'err', 'w1': _cp(s[i + 1:j]), 'n': _cp(s[j:k]),
+                             'w2': _cp(s[k:m]), 'ix': ix})
+                i = nxt
+                continue
+            if c == '<':
+                flush()
+                toks.append({'k': 'lt'})
+                i += 1
+                continue
+        chunk.append(c)
+        i += 1
+    flush()
+    return toks
+
+
+def wf_line(s):
+    return 'wf_check\t' + json.dumps({'toks': tokenise(s), 'text': _cp(s)}, separators=(',', ':'))
